@@ -36,7 +36,7 @@
 (* "propagateErr" (`?` instead of the fallback) are the mutants of the     *)
 (* sensitivity configurations and MUST fail.                               *)
 (***************************************************************************)
-EXTENDS Naturals, Sequences, FiniteSets, TLC
+EXTENDS Naturals, Sequences, FiniteSets, TLC, FormatterRules
 
 CONSTANTS Ks,          \* pipe capacities explored
           Ss,          \* source sizes (chunks) explored
@@ -134,11 +134,10 @@ Utf8(o) == \A i \in DOMAIN o : o[i] = "v"
 
 P_Triage ==
   /\ ppc = "triage"
-  /\ IF Utf8(out)
-       THEN IF status \in Success
-              THEN ftres' = "Ok" /\ result' = "Formatted" /\ wres' = "Ok" /\ ppc' = "done"
-              ELSE ftres' = "Err" /\ ppc' = "fallback" /\ UNCHANGED <<result, wres>>
-       ELSE ftres' = "Ok" /\ result' = "Source" /\ wres' = "Ok" /\ ppc' = "done"
+  /\ LET c == TriageClass(Utf8(out), status \in Success) IN
+       IF c = "Fallback"
+         THEN ftres' = "Err" /\ ppc' = "fallback" /\ UNCHANGED <<result, wres>>
+         ELSE ftres' = "Ok" /\ result' = c /\ wres' = "Ok" /\ ppc' = "done"
   /\ UNCHANGED <<scen, wpc, wi, cpc, status, pin, pout, cinOpen, coutOpen, winOpen, out>>
 
 \* Bindings::write: Err(err) => eprintln!(..non-fatal..); write the unformatted tokens
